@@ -16,15 +16,30 @@
 //     MatchHandler.checkRest (1: one location; 0: all); checkRestCallsFirst: checkRest calls `.First(`
 //     on the Rest expression (the value is looked up separately from the located path).
 //
+// Handler methods (goal: a dropped push/pop of h.Stack / h.Path, a dropped incNth()/OnData call, a
+// changed start fragment breaks a Lean proof, theorem OjgVerif.Match.handler_methods_match_source in
+// lean/OjgVerif/Match/HandlerFacts.lean): a statement-level rendering of the event methods of
+// jp.MatchHandler and of the helpers they call. For every method there is `sig_<name> : String` (the
+// declaration without its body) and `body_<name> : List String`: one entry per statement in source
+// order, two spaces of indentation per nesting level; simple statements are printed as Go text (one
+// line, go/printer), `if`/`else if`/`else`, `switch`, `case`, `for` are printed as a header entry
+// (with the init statement and the condition) followed by their bodies one level deeper.
+// `tokenMethods` collects the eleven TokenHandler methods, `helperMethods` the helpers, and
+// `declaredMethods` lists every method declared on MatchHandler in source order. Again a syntactic
+// tripwire, not a semantic tie.
+//
 // It fails loudly on source shapes it cannot read.
 package main
 
 import (
+	"bytes"
 	"fmt"
 	"go/ast"
 	"go/parser"
+	"go/printer"
 	"go/token"
 	"path/filepath"
+	"regexp"
 	"sort"
 	"strconv"
 	"strings"
@@ -248,6 +263,11 @@ func extractMatch(repo, out string) ([]string, error) {
 	sb.WriteString("]\n")
 	fmt.Fprintf(&sb, "def checkRestLocateMax : Int := %d\n", locateMax)
 	fmt.Fprintf(&sb, "def checkRestCallsFirst : Bool := %v\n", callsFirst)
+	hm, err := mhHandlerFacts(repo)
+	if err != nil {
+		return nil, err
+	}
+	sb.WriteString(hm)
 	sb.WriteString("\nend OjgVerif.Gen.MatchFacts\n")
 	path := filepath.Join(out, "MatchFacts.lean")
 	changed, err := writeIfChanged(path, sb.String())
@@ -258,4 +278,360 @@ func extractMatch(repo, out string) ([]string, error) {
 		return []string{"MatchFacts.lean"}, nil
 	}
 	return nil, nil
+}
+
+// ---- statement-level rendering of the MatchHandler methods ----
+
+// the TokenHandler methods (oj.TokenHandler / sen.TokenHandler) in the order of the interface
+var mhTokenMethods = []string{"Null", "Bool", "Int", "Float", "Number", "String",
+	"ObjectStart", "ObjectEnd", "Key", "ArrayStart", "ArrayEnd"}
+
+// the helpers the token methods call (and the handler's own pathMatch); checkRest is read by the
+// facts above. NewMatchHandler is a plain function (receiver "").
+var mhHelperMethods = []string{"AddValue", "objArrayStart", "objArrayEnd", "incNth", "pathMatch"}
+
+var mhNewline = regexp.MustCompile(`[ ]*[\t\n][ \t\n]*`)
+
+type mhWalker struct {
+	fset  *token.FileSet
+	lines []string
+}
+
+// mhText prints a node as Go source on one line.
+func (w *mhWalker) text(n ast.Node) (string, error) {
+	var buf bytes.Buffer
+	cfg := printer.Config{Mode: printer.RawFormat, Tabwidth: 8}
+	if err := cfg.Fprint(&buf, w.fset, n); err != nil {
+		return "", fmt.Errorf("match: cannot print a node of jp/matchhandler.go: %v", err)
+	}
+	return strings.TrimSpace(mhNewline.ReplaceAllString(buf.String(), " ")), nil
+}
+
+func (w *mhWalker) emit(depth int, s string) {
+	w.lines = append(w.lines, strings.Repeat("  ", depth)+s)
+}
+
+func (w *mhWalker) block(list []ast.Stmt, depth int) error {
+	for _, s := range list {
+		if err := w.stmt(s, depth); err != nil {
+			return err
+		}
+	}
+	return nil
+}
+
+// header: "<kw> <init>; <rest>" / "<kw> <rest>" / "<kw>"
+func (w *mhWalker) header(kw string, init ast.Stmt, rest ast.Node) (string, error) {
+	h := kw
+	if init != nil {
+		t, err := w.text(init)
+		if err != nil {
+			return "", err
+		}
+		h += " " + t + ";"
+	}
+	if rest != nil {
+		t, err := w.text(rest)
+		if err != nil {
+			return "", err
+		}
+		h += " " + t
+	}
+	return h, nil
+}
+
+func (w *mhWalker) ifStmt(t *ast.IfStmt, depth int, kw string) error {
+	if t.Cond == nil {
+		return fmt.Errorf("match: an if statement without a condition in jp/matchhandler.go")
+	}
+	h, err := w.header(kw, t.Init, t.Cond)
+	if err != nil {
+		return err
+	}
+	w.emit(depth, h)
+	if err := w.block(t.Body.List, depth+1); err != nil {
+		return err
+	}
+	switch e := t.Else.(type) {
+	case nil:
+	case *ast.IfStmt:
+		return w.ifStmt(e, depth, "else if")
+	case *ast.BlockStmt:
+		w.emit(depth, "else")
+		return w.block(e.List, depth+1)
+	default:
+		return fmt.Errorf("match: unreadable else branch (%T) in jp/matchhandler.go", t.Else)
+	}
+	return nil
+}
+
+func (w *mhWalker) clauses(body *ast.BlockStmt, depth int) error {
+	for _, c := range body.List {
+		cc, ok := c.(*ast.CaseClause)
+		if !ok {
+			return fmt.Errorf("match: unreadable switch clause (%T) in jp/matchhandler.go", c)
+		}
+		if cc.List == nil {
+			w.emit(depth, "default")
+		} else {
+			var es []string
+			for _, e := range cc.List {
+				t, err := w.text(e)
+				if err != nil {
+					return err
+				}
+				es = append(es, t)
+			}
+			w.emit(depth, "case "+strings.Join(es, ", "))
+		}
+		if err := w.block(cc.Body, depth+1); err != nil {
+			return err
+		}
+	}
+	return nil
+}
+
+func (w *mhWalker) stmt(s ast.Stmt, depth int) error {
+	switch t := s.(type) {
+	case *ast.ExprStmt, *ast.AssignStmt, *ast.IncDecStmt, *ast.ReturnStmt, *ast.BranchStmt, *ast.DeclStmt:
+		txt, err := w.text(t)
+		if err != nil {
+			return err
+		}
+		w.emit(depth, txt)
+	case *ast.IfStmt:
+		return w.ifStmt(t, depth, "if")
+	case *ast.TypeSwitchStmt:
+		h, err := w.header("switch", t.Init, t.Assign)
+		if err != nil {
+			return err
+		}
+		w.emit(depth, h)
+		return w.clauses(t.Body, depth+1)
+	case *ast.SwitchStmt:
+		var tag ast.Node
+		if t.Tag != nil {
+			tag = t.Tag
+		}
+		h, err := w.header("switch", t.Init, tag)
+		if err != nil {
+			return err
+		}
+		w.emit(depth, h)
+		return w.clauses(t.Body, depth+1)
+	case *ast.ForStmt:
+		h := "for"
+		if t.Init != nil || t.Post != nil {
+			parts := []string{"", "", ""}
+			for i, n := range []ast.Node{t.Init, t.Cond, t.Post} {
+				// a nil statement inside the interface is not a nil interface
+				if (i == 0 && t.Init == nil) || (i == 1 && t.Cond == nil) || (i == 2 && t.Post == nil) {
+					continue
+				}
+				x, err := w.text(n)
+				if err != nil {
+					return err
+				}
+				parts[i] = x
+			}
+			h = "for " + parts[0] + "; " + parts[1] + "; " + parts[2]
+		} else if t.Cond != nil {
+			x, err := w.text(t.Cond)
+			if err != nil {
+				return err
+			}
+			h = "for " + x
+		}
+		w.emit(depth, h)
+		return w.block(t.Body.List, depth+1)
+	case *ast.RangeStmt:
+		h := "for "
+		if t.Key != nil {
+			k, err := w.text(t.Key)
+			if err != nil {
+				return err
+			}
+			h += k
+			if t.Value != nil {
+				v, err := w.text(t.Value)
+				if err != nil {
+					return err
+				}
+				h += ", " + v
+			}
+			h += " " + t.Tok.String() + " "
+		}
+		x, err := w.text(t.X)
+		if err != nil {
+			return err
+		}
+		w.emit(depth, h+"range "+x)
+		return w.block(t.Body.List, depth+1)
+	case *ast.BlockStmt:
+		w.emit(depth, "block")
+		return w.block(t.List, depth+1)
+	default:
+		return fmt.Errorf("match: statement kind %T in jp/matchhandler.go is not rendered", s)
+	}
+	return nil
+}
+
+// mhLeanString: a Lean string literal; only printable ASCII is let through.
+func mhLeanString(s string) (string, error) {
+	var sb strings.Builder
+	sb.WriteByte('"')
+	for _, r := range s {
+		switch {
+		case r == '"' || r == '\\':
+			sb.WriteByte('\\')
+			sb.WriteRune(r)
+		case r >= 0x20 && r < 0x7f:
+			sb.WriteRune(r)
+		default:
+			return "", fmt.Errorf("match: character %q in the rendering of jp/matchhandler.go (%q)", r, s)
+		}
+	}
+	sb.WriteByte('"')
+	return sb.String(), nil
+}
+
+func mhRecvName(fd *ast.FuncDecl) string {
+	if fd.Recv == nil || len(fd.Recv.List) != 1 {
+		return ""
+	}
+	switch t := fd.Recv.List[0].Type.(type) {
+	case *ast.StarExpr:
+		if id, ok := t.X.(*ast.Ident); ok {
+			return id.Name
+		}
+	case *ast.Ident:
+		return t.Name
+	}
+	return "?"
+}
+
+type mhMethod struct {
+	name, sig string
+	body      []string
+}
+
+// mhHandlerFacts renders the methods of MatchHandler as Lean definitions (see the file comment).
+func mhHandlerFacts(repo string) (string, error) {
+	fset := token.NewFileSet()
+	f, err := parser.ParseFile(fset, filepath.Join(repo, "jp", "matchhandler.go"), nil, 0)
+	if err != nil {
+		return "", fmt.Errorf("match: %v", err)
+	}
+	decls := map[string]*ast.FuncDecl{} // "<recv>.<name>"
+	var declared []string
+	for _, d := range f.Decls {
+		fd, ok := d.(*ast.FuncDecl)
+		if !ok {
+			continue
+		}
+		r := mhRecvName(fd)
+		key := r + "." + fd.Name.Name
+		if _, dup := decls[key]; dup {
+			return "", fmt.Errorf("match: jp/matchhandler.go declares %s twice", key)
+		}
+		decls[key] = fd
+		if r == "MatchHandler" {
+			declared = append(declared, fd.Name.Name)
+		}
+	}
+	render := func(recv, name string) (mhMethod, error) {
+		fd := decls[recv+"."+name]
+		if fd == nil || fd.Body == nil {
+			return mhMethod{}, fmt.Errorf("match: jp/matchhandler.go has no function %s.%s with a body", recv, name)
+		}
+		w := &mhWalker{fset: fset}
+		sig, err := w.text(&ast.FuncDecl{Recv: fd.Recv, Name: fd.Name, Type: fd.Type})
+		if err != nil {
+			return mhMethod{}, err
+		}
+		if err := w.block(fd.Body.List, 0); err != nil {
+			return mhMethod{}, fmt.Errorf("%v (in %s)", err, name)
+		}
+		return mhMethod{name, sig, w.lines}, nil
+	}
+	var tokens, helpers []mhMethod
+	for _, n := range mhTokenMethods {
+		m, err := render("MatchHandler", n)
+		if err != nil {
+			return "", err
+		}
+		// shape: one statement, a call of a method on the receiver or an assignment
+		if len(m.body) != 1 {
+			return "", fmt.Errorf("match: MatchHandler.%s is not a single statement", n)
+		}
+		tokens = append(tokens, m)
+	}
+	for _, n := range mhHelperMethods {
+		m, err := render("MatchHandler", n)
+		if err != nil {
+			return "", err
+		}
+		helpers = append(helpers, m)
+	}
+	nm, err := render("", "NewMatchHandler")
+	if err != nil {
+		return "", err
+	}
+	helpers = append(helpers, nm)
+
+	var sb strings.Builder
+	var ferr error
+	q := func(s string) string {
+		t, err := mhLeanString(s)
+		if err != nil && ferr == nil {
+			ferr = err
+		}
+		return t
+	}
+	sb.WriteString("\n/-! Statement-level rendering of the methods of `jp.MatchHandler` (jp/matchhandler.go): `sig_<m>` the\n")
+	sb.WriteString("declaration, `body_<m>` one entry per statement in source order, two spaces per nesting level, `if` /\n")
+	sb.WriteString("`else if` / `else` / `switch` / `case` / `for` headers as entries of their own. Compared with the\n")
+	sb.WriteString("model in Match/HandlerFacts.lean. -/\n\n")
+	sb.WriteString("def declaredMethods : List String := [")
+	for i, n := range declared {
+		if i > 0 {
+			sb.WriteString(", ")
+		}
+		sb.WriteString(q(n))
+	}
+	sb.WriteString("]\n\n")
+	one := func(m mhMethod) {
+		fmt.Fprintf(&sb, "def sig_%s : String := %s\n", m.name, q(m.sig))
+		fmt.Fprintf(&sb, "def body_%s : List String := [", m.name)
+		for i, l := range m.body {
+			if i > 0 {
+				sb.WriteString(",")
+			}
+			sb.WriteString("\n  " + q(l))
+		}
+		sb.WriteString("]\n\n")
+	}
+	group := func(name string, ms []mhMethod) {
+		fmt.Fprintf(&sb, "def %s : List (String × String × List String) := [", name)
+		for i, m := range ms {
+			if i > 0 {
+				sb.WriteString(",")
+			}
+			fmt.Fprintf(&sb, "\n  (%s, sig_%s, body_%s)", q(m.name), m.name, m.name)
+		}
+		sb.WriteString("]\n")
+	}
+	for _, m := range tokens {
+		one(m)
+	}
+	for _, m := range helpers {
+		one(m)
+	}
+	group("tokenMethods", tokens)
+	sb.WriteString("\n")
+	group("helperMethods", helpers)
+	if ferr != nil {
+		return "", ferr
+	}
+	return sb.String(), nil
 }
